@@ -4,10 +4,10 @@
 d="$1"
 wt=$(mktemp -d /tmp/confirm.XXXXXX)
 git -C /repo worktree add -q --detach "$wt" HEAD || exit 2
-trap 'git -C /repo worktree remove --force "$wt" 2>/dev/null; rm -rf "$wt"' EXIT
+trap 'git -C /repo worktree remove --force "$wt" 2>/dev/null; rm -rf "$wt" "$wt.tests.log"' EXIT
 cd "$wt"
 PYTHONPATH=$wt/src /venv/bin/python "$d/demo.py" >/dev/null 2>&1; clean=$?
 git apply "$d/patch.diff" || { echo "RESULT $d apply-failed"; exit 1; }
-PYTHONPATH=$wt/src /venv/bin/python -m pytest -q -p no:cacheprovider -x >/tmp/confirm_tests.log 2>&1; tests=$?
+PYTHONPATH=$wt/src /venv/bin/python -m pytest -q -p no:cacheprovider -x >$wt.tests.log 2>&1; tests=$?
 PYTHONPATH=$wt/src /venv/bin/python "$d/demo.py" >/dev/null 2>&1; mut=$?
-echo "RESULT $d demo_clean=$clean tests_with_patch=$tests demo_with_patch=$mut $(tail -1 /tmp/confirm_tests.log)"
+echo "RESULT $d demo_clean=$clean tests_with_patch=$tests demo_with_patch=$mut $(tail -1 $wt.tests.log)"
